@@ -417,8 +417,14 @@ func c10Message(r *rand.Rand, g *gen.DocGen, d *openapi3.T, ops []c10op) c10Msg 
 
 func (m *c10Msg) request() *http.Request {
 	var rd io.Reader
+	streamed := false
 	if m.Body != nil {
 		rd = strings.NewReader(*m.Body)
+		if len(*m.Body)%2 == 1 {
+			// what a server receives: a body stream that cannot be re-opened (no GetBody)
+			rd = io.NopCloser(rd)
+			streamed = true
+		}
 	}
 	req, err := http.NewRequest("GET", m.URL, rd)
 	if err != nil {
@@ -431,6 +437,9 @@ func (m *c10Msg) request() *http.Request {
 		req.URL = u
 	}
 	req.Method = m.Method
+	if streamed {
+		req.ContentLength = int64(len(*m.Body))
+	}
 	for k, vs := range m.Header {
 		req.Header[k] = append([]string{}, vs...)
 	}
